@@ -48,6 +48,7 @@ def expected_n(spec, par, pop):
 
 def check(spec):
     b, res = simcase.run_spec(spec)
+    oracles.check_structure(spec, res, ID, ("links", "timed"))
     rp = replay.Replay(res)
     T = len(res.t)
     feats = set()
